@@ -476,6 +476,25 @@ func runHistory(ops []string) string {
 			emit("AD=" + strings.TrimPrefix(live(p[1], "add", p[2]), "R="))
 		case p[0] == "RM":
 			emit("RM=" + strings.TrimPrefix(live(p[1], "remove", p[2]), "R="))
+		case p[0] == "LC":
+			// the stored identity is one with lower-case letters (a storage written by other software or by hand): the uuid
+			// file and the accessory's own entity are renamed to 3c:a1:0f:7b:e2:d9, the key pair is kept
+			if w != nil {
+				emit("LC=running")
+				continue
+			}
+			old, err := ioutil.ReadFile(filepath.Join(dir, "uuid"))
+			d, err2 := db.NewDatabase(dir)
+			if err != nil || err2 != nil {
+				emit("LC=nouuid")
+				continue
+			}
+			if e, err := d.EntityWithName(string(old)); err == nil {
+				d.DeleteEntity(e)
+				e.Name = "3c:a1:0f:7b:e2:d9"
+				d.SaveEntity(e)
+			}
+			ioutil.WriteFile(filepath.Join(dir, "uuid"), []byte("3c:a1:0f:7b:e2:d9"), 0666)
 		case p[0] == "D" || p[0] == "Z":
 			if w != nil {
 				emit(p[0] + "=running")
